@@ -351,6 +351,21 @@ def gate_sequences(cfgname, rng, quick):
         for perm in itertools.permutations([capsym, "NICK gate1", "USER plain 0 * :P"]):
             for end in ([], ["CAP END"], ["JOIN #o", "CAP END"]):
                 seqs.append((["PASS " + spw] if spw else []) + list(perm) + end)
+    # password cores, exhaustively: "for every order and repetition of PASS" - two PASS commands (right/wrong in both
+    # orders, twice the same) at every position before the command that completes the registration; the last one counts
+    users = CONFIGS[cfgname][1]
+    pws = [p_ for p_ in (spw, "userpw" if users else None, "wrong") if p_]
+    if spw or users:
+        tails = [["NICK gate1", "USER plain 0 * :P"], ["USER plain 0 * :P", "NICK gate1"]]
+        if users:
+            tails += [["NICK gate1", "USER cfgp 0 * :C"], ["USER cfgp 0 * :C", "NICK gate1"]]
+        for p1 in pws:
+            for p2 in pws:
+                for tail in tails:
+                    seqs.append(["PASS " + p1, "PASS " + p2] + tail)
+                    seqs.append(["PASS " + p1, tail[0], "PASS " + p2, tail[1]])
+                    seqs.append([tail[0], "PASS " + p1, "PASS " + p2, tail[1]])
+                    seqs.append(["CAP LS 302"] + tail + ["PASS " + p1, "PASS " + p2, "CAP END"])
     # every gated verb once on a fresh connection and once just before completion
     for g in GATED:
         seqs.append([g])
